@@ -406,8 +406,8 @@ def _extract_violation(e, depth=0):
 
 
 def write_replay(v, tier, seed):
-    d = os.path.join(VERIF, ".work", "scratch-replays") if os.environ.get("VERIF_SCRATCH") \
-        else os.path.join(VERIF, "replays", "found")
+    d = os.path.join(VERIF, ".work", "scratch-" + os.environ["VERIF_SCRATCH"], "replays") \
+        if os.environ.get("VERIF_SCRATCH") else os.path.join(VERIF, "replays", "found")
     os.makedirs(d, exist_ok=True)
     h = hashlib.sha1((v.signature + canon(v.spec)).encode()).hexdigest()[:12]
     path = os.path.join(d, f"{v.prop}-{h}.json")
